@@ -1,33 +1,276 @@
-import CalicoVerif.Model.C35
+import CalicoVerif.Proofs.C35
 /-!
 C35 — Mark-bit allocation is collision-free and reversible.
+
 Property theorems only (helper lemmas live in `CalicoVerif.Proofs.C35`).
+All theorems hold for EVERY mask (any `Nat`; `NewMarkBitsManager` takes a
+`uint32`, `Mgr.new` reduces modulo 2^32), every allocation history
+(`List AllocOp`: any interleaving of `NextSingleBitMark` and
+`NextBlockBitsMark size`), and every Go `int` number (`Int`).
+
+`popcount mask` is the number of set bits of the mask below bit 32 (what
+`NewMarkBitsManager` counts), `e.mark` the bits an allocation call handed out,
+`e.count` the number of bits it reports.
 -/
 namespace CalicoVerif.C35
 
-theorem mem_positionsBelow {mask w p : Nat} :
-    p ∈ positionsBelow mask w ↔ p < w ∧ mask.testBit p = true := by
-  induction w with
-  | zero => simp [positionsBelow]
-  | succ w ih =>
-    simp only [positionsBelow, List.mem_append, ih]
-    by_cases h : mask.testBit w = true
-    · simp only [h, if_true, List.mem_singleton]
-      constructor
-      · rintro (⟨h1, h2⟩ | rfl)
-        · exact ⟨by omega, h2⟩
-        · exact ⟨by omega, h⟩
-      · rintro ⟨h1, h2⟩
-        by_cases hp : p = w
-        · exact Or.inr hp
-        · exact Or.inl ⟨by omega, h2⟩
-    · have hf : mask.testBit w = false := by simpa using h
-      simp only [hf, Bool.false_eq_true, if_false, List.not_mem_nil, or_false]
-      constructor
-      · rintro ⟨h1, h2⟩; exact ⟨by omega, h2⟩
-      · rintro ⟨h1, h2⟩
-        have : p ≠ w := by rintro rfl; exact h h2
-        exact ⟨by omega, h2⟩
+/-! ### 1. Allocation: distinct single bits inside the mask -/
+
+/-- Over any allocation history starting from a fresh manager:
+* every successful `NextSingleBitMark` returns a single bit `2^p`, `p < 32`, inside the mask;
+* every `NextBlockBitsMark` returns a mark inside the mask with exactly as many
+  bits as the count it reports;
+* the marks returned by two different calls never share a bit. -/
+theorem marks_distinct_single_bits_in_mask (mask : Nat) (ops : List AllocOp) :
+    (∀ b, Event.single (some b) ∈ ((Mgr.new mask).run ops).2 →
+        ∃ p, p < 32 ∧ mask.testBit p = true ∧ b = 2 ^ p) ∧
+    (∀ k mark n, Event.block k mark n ∈ ((Mgr.new mask).run ops).2 →
+        mark &&& (mask % 2 ^ 32) = mark ∧ popcount mark = n) ∧
+    (((Mgr.new mask).run ops).2).Pairwise (fun e1 e2 => e1.mark &&& e2.mark = 0) := by
+  obtain ⟨hspec, -, -, -⟩ := run_spec ops (Mgr.new mask) (Mgr.new_WF mask)
+  rw [Mgr.new_rem] at hspec
+  obtain ⟨hsub, hpair⟩ := specRun_disjoint ops (positions mask) (positions_sorted mask)
+  rw [hspec]
+  refine ⟨?_, ?_, hpair⟩
+  · intro b hb
+    obtain ⟨t, ht, hm⟩ := hsub _ hb
+    -- a `single` event is `evOf .single (take 1 …)`: recover its position from the spec
+    have : ∀ (ops : List AllocOp) (rem : List Nat), Event.single (some b) ∈ specRun rem ops →
+        ∃ p ∈ rem, b = 2 ^ p := by
+      intro ops
+      induction ops with
+      | nil => intro rem h; simp [specRun] at h
+      | cons op ops ih =>
+        intro rem h
+        simp only [specRun, List.mem_cons] at h
+        rcases h with h | h
+        · cases op with
+          | single =>
+            cases rem with
+            | nil => simp [evOf, AllocOp.size] at h
+            | cons p rest =>
+              simp [evOf, AllocOp.size] at h
+              exact ⟨p, by simp, h⟩
+          | block k => simp [evOf] at h
+        · obtain ⟨p, hp, e⟩ := ih _ h
+          exact ⟨p, List.mem_of_mem_drop hp, e⟩
+    obtain ⟨p, hp, e⟩ := this ops _ hb
+    have := mem_positions.1 hp
+    exact ⟨p, this.1, this.2, e⟩
+  · intro k mark n hb
+    have : ∀ (ops : List AllocOp) (rem : List Nat), Event.block k mark n ∈ specRun rem ops →
+        ∃ t, t.Sublist rem ∧ mark = orBits t ∧ n = t.length := by
+      intro ops
+      induction ops with
+      | nil => intro rem h; simp [specRun] at h
+      | cons op ops ih =>
+        intro rem h
+        simp only [specRun, List.mem_cons] at h
+        rcases h with h | h
+        · cases op with
+          | single => simp [evOf] at h
+          | block k' =>
+            simp only [evOf, AllocOp.size, Event.block.injEq] at h
+            exact ⟨_, List.take_sublist _ _, h.2.1, h.2.2⟩
+        · obtain ⟨t, ht, e⟩ := ih _ h
+          exact ⟨t, ht.trans (List.drop_sublist _ _), e⟩
+    obtain ⟨t, ht, hmark, hn⟩ := this ops _ hb
+    have hmem : ∀ x ∈ t, x < 32 ∧ mask.testBit x = true := fun x hx => mem_positions.1 (ht.subset hx)
+    subst hmark hn
+    constructor
+    · apply orBits_and_mask
+      intro x hx
+      rw [Nat.testBit_mod_two_pow]
+      simp [hmem x hx]
+    · unfold popcount
+      rw [positions_orBits ((positions_sorted mask).sublist ht) (fun x hx => (hmem x hx).1)]
+
+/-- Corollary: the single-bit marks handed out along a history are pairwise different. -/
+theorem single_marks_nodup (mask : Nat) (ops : List AllocOp) :
+    ((((Mgr.new mask).run ops).2).filterMap
+      (fun e => match e with | .single r => r | _ => none)).Pairwise (· ≠ ·) := by
+  obtain ⟨h1, -, h3⟩ := marks_distinct_single_bits_in_mask mask ops
+  refine List.Pairwise.filterMap _ ?_ (List.Pairwise.and_mem.1 h3)
+  intro e1 e2 hdisj b1 hb1 b2 hb2 heq
+  cases e1 with
+  | block _ _ _ => simp at hb1
+  | single r1 =>
+    cases e2 with
+    | block _ _ _ => simp at hb2
+    | single r2 =>
+      simp only at hb1 hb2
+      subst hb1 hb2 heq
+      obtain ⟨hmem, -, hd⟩ := hdisj
+      simp only [Event.mark, Nat.and_self] at hd
+      -- a mark handed out is `2^p`, never 0, so it cannot be disjoint from itself
+      obtain ⟨p, -, -, e⟩ := h1 _ hmem
+      have := Nat.two_pow_pos p
+      omega
+
+example : ((Mgr.new 0xf0).run [.single, .block 2, .single, .single]).2 =
+    [.single (some 16), .block 2 96 2, .single (some 128), .single none] := by decide
+
+/-! ### 2. Failure exactly at exhaustion -/
+
+/-- After any allocation history: the bits reported as allocated never exceed
+`popcount mask`; `AvailableMarkBitCount` is exactly what is left; the next
+`NextSingleBitMark` succeeds iff something is left; and the next
+`NextBlockBitsMark k` allocates exactly `min k left` bits. -/
+theorem exhaustion_fails (mask : Nat) (ops : List AllocOp) :
+    let m := ((Mgr.new mask).run ops).1
+    let used := ((((Mgr.new mask).run ops).2).map Event.count).sum
+    used ≤ popcount mask ∧
+    m.numFreeBits = popcount mask - used ∧
+    (m.nextSingle.2.isSome ↔ used < popcount mask) ∧
+    ∀ k, (m.nextBlock k 0 0).2.2 = min k (popcount mask - used) := by
+  intro m used
+  obtain ⟨-, hwf, hmask, hcnt⟩ := run_spec ops (Mgr.new mask) (Mgr.new_WF mask)
+  have hcnt' : m.numBitsAllocated = used := by
+    show ((Mgr.new mask).run ops).1.numBitsAllocated = _
+    rw [hcnt]; simp [Mgr.new, used]
+  have hpc : popcount m.mask = popcount mask := by
+    show popcount ((Mgr.new mask).run ops).1.mask = _
+    rw [hmask, Mgr.new_mask]; unfold popcount; rw [positions_mod]
+  have hwf' : m.numBitsAllocated + m.numFreeBits = popcount m.mask := hwf
+  have hlen := rem_length m hwf
+  refine ⟨by omega, by omega, ?_, ?_⟩
+  · cases hr : m.rem with
+    | nil => rw [hr] at hlen; simp only [List.length_nil] at hlen; simp [nextSingle_nil hr]; omega
+    | cons p rest =>
+      rw [hr] at hlen; simp only [List.length_cons] at hlen; simp [nextSingle_cons hr]; omega
+  · intro k
+    obtain ⟨m', e, -⟩ := nextBlock_spec k m 0 0 hwf
+    rw [e]
+    simp only [List.length_take, Nat.zero_add]
+    omega
+
+/-- `k` calls of `NextSingleBitMark` on a fresh manager: the first
+`min k (popcount mask)` succeed and return the mask's bits in ascending order,
+all the others fail — exactly `popcount mask` successes, ever. -/
+theorem singles_exactly_popcount (mask k : Nat) :
+    ((Mgr.new mask).run (List.replicate k .single)).2 =
+      ((positions mask).take k).map (fun p => Event.single (some (2 ^ p))) ++
+        List.replicate (k - popcount mask) (Event.single none) := by
+  obtain ⟨hspec, -⟩ := run_spec (List.replicate k .single) (Mgr.new mask) (Mgr.new_WF mask)
+  rw [hspec, Mgr.new_rem]
+  clear hspec
+  unfold popcount
+  generalize positions mask = rem
+  induction k generalizing rem with
+  | zero => simp [specRun]
+  | succ k ih =>
+    cases rem with
+    | nil =>
+      have := ih []
+      simp only [List.take_nil, List.map_nil, List.nil_append, List.length_nil, Nat.sub_zero] at this
+      simp [List.replicate_succ, specRun, evOf, AllocOp.size, this]
+    | cons p rest =>
+      simp [List.replicate_succ, specRun, evOf, AllocOp.size, ih rest]
+
+example : ((Mgr.new 0x30).run (List.replicate 4 .single)).2 =
+    [.single (some 16), .single (some 32), .single none, .single none] := by decide
+
+/-! ### 3. number → mark → number, too-big numbers, `uint32(n)` truncation -/
+
+/-- `MapNumberToMark(n)` starts with `number := uint32(n)`: the Go `int` is
+truncated modulo 2^32, so `n`, `n + 2^32`, `n - 2^32` … are indistinguishable
+(e.g. `2^32` is accepted and mapped like `0`, `-1` is treated as `2^32 - 1`). -/
+theorem uint32_truncation (mask : Nat) (n : Int) :
+    mapNumberToMark mask n = mapNumberToMark mask (n % 2 ^ 32) := by
+  rw [mapNumberToMark_eq, mapNumberToMark_eq, Int.emod_emod_of_dvd _ (Int.dvd_refl _)]
+
+/-- Every number that fits (`0 ≤ n < 2^popcount mask`) maps to a mark inside
+the mask, and `MapMarkToNumber` maps that mark back to `n`. -/
+theorem number_mark_roundtrip (mask : Nat) (n : Int) (h0 : 0 ≤ n) (hfit : n < 2 ^ popcount mask) :
+    ∃ mark, mapNumberToMark mask n = some mark ∧ mark &&& mask = mark ∧
+      mapMarkToNumber mask mark = some n.toNat := by
+  have hpc := popcount_le mask
+  have hlt : n.toNat < 2 ^ popcount mask := by
+    have : ((n.toNat : Nat) : Int) < ((2 ^ popcount mask : Nat) : Int) := by
+      rw [Int.toNat_of_nonneg h0]; simpa using hfit
+    exact Int.ofNat_lt.1 this
+  have h32 : n.toNat < 2 ^ 32 := Nat.lt_of_lt_of_le hlt (Nat.pow_le_pow_right (by omega) hpc)
+  have hmod : (n % (2 ^ 32 : Int)).toNat = n.toNat := by
+    rw [Int.emod_eq_of_lt h0 (by omega)]
+  have hin : markOf (positions mask) n.toNat &&& mask = markOf (positions mask) n.toNat :=
+    markOf_and_mask _ (fun x hx => (mem_positions.1 hx).2)
+  refine ⟨markOf (positions mask) n.toNat, ?_, hin, ?_⟩
+  · rw [mapNumberToMark_eq, hmod]; simp [hlt]
+  · simp only [mapMarkToNumber, hin, ne_eq, not_true_eq_false, if_false]
+    rw [markToNumLoop_eq, numOf_markOf _ _ (positions_sorted mask)]
+    simp only [Nat.pow_zero, Nat.one_mul, Nat.zero_add]
+    exact congrArg some (Nat.mod_eq_of_lt hlt)
+
+example : mapNumberToMark 0xf0 5 = some 0x50 ∧ mapMarkToNumber 0xf0 0x50 = some 5 := by decide
+
+/-- `MapNumberToMark` accepts `n` exactly when the truncated number fits in
+`popcount mask` bits: in particular every `2^popcount mask ≤ n < 2^32` is rejected. -/
+theorem too_big_rejected (mask : Nat) (n : Int) :
+    (mapNumberToMark mask n = none ↔ 2 ^ popcount mask ≤ (n % (2 ^ 32 : Int)).toNat) ∧
+    (2 ^ popcount mask ≤ n → n < 2 ^ 32 → mapNumberToMark mask n = none) := by
+  have h1 : mapNumberToMark mask n = none ↔ 2 ^ popcount mask ≤ (n % (2 ^ 32 : Int)).toNat := by
+    rw [mapNumberToMark_eq]
+    by_cases hlt : (n % (2 ^ 32 : Int)).toNat < 2 ^ popcount mask
+    · simp
+    · simp
+  refine ⟨h1, ?_⟩
+  intro hlo hhi
+  rw [h1]
+  have h0 : 0 ≤ n := Int.le_trans (Int.pow_nonneg (by omega)) hlo
+  rw [Int.emod_eq_of_lt h0 hhi]
+  have : ((2 ^ popcount mask : Nat) : Int) ≤ ((n.toNat : Nat) : Int) := by
+    rw [Int.toNat_of_nonneg h0]; simpa using hlo
+  exact Int.ofNat_le.1 this
+
+example : mapNumberToMark 0xf0 16 = none ∧ mapNumberToMark 0xf0 15 = some 0xf0 := by decide
+/-- Truncation witness: `2^32 + 3` does not fit a 2-bit mask but is accepted as `3`. -/
+example : mapNumberToMark 0x3 (2 ^ 32 + 3) = some 3 ∧ mapNumberToMark 0x3 (-1) = none := by decide
+
+/-! ### 4. mark → number → mark (the mapping is a bijection) -/
+
+/-- Every mark inside a 32-bit mask maps to a number that fits, and
+`MapNumberToMark` maps that number back to the mark; marks not inside the mask
+are rejected. -/
+theorem mark_number_roundtrip (mask mark : Nat) (hm : mask < 2 ^ 32) :
+    (mark &&& mask ≠ mark → mapMarkToNumber mask mark = none) ∧
+    (mark &&& mask = mark → ∃ k, mapMarkToNumber mask mark = some k ∧ k < 2 ^ popcount mask ∧
+      mapNumberToMark mask (k : Int) = some mark) := by
+  constructor
+  · intro h; simp [mapMarkToNumber, h]
+  · intro h
+    have hk : numOf mark (positions mask) < 2 ^ popcount mask := numOf_lt mark _
+    have hpc := popcount_le mask
+    have hk32 : numOf mark (positions mask) < 2 ^ 32 :=
+      Nat.lt_of_lt_of_le hk (Nat.pow_le_pow_right (by omega) hpc)
+    refine ⟨numOf mark (positions mask), ?_, hk, ?_⟩
+    · simp [mapMarkToNumber, h, markToNumLoop_eq]
+    · have hmod : ((numOf mark (positions mask) : Int) % (2 ^ 32 : Int)).toNat =
+          numOf mark (positions mask) := by
+        rw [Int.emod_eq_of_lt (by omega) (by exact_mod_cast hk32)]; simp
+      rw [mapNumberToMark_eq, hmod]
+      simp only [hk, if_true, Option.some.injEq]
+      apply Nat.eq_of_testBit_eq
+      intro x
+      rw [testBit_markOf_numOf]
+      by_cases hx : mark.testBit x = true
+      · have hmx : mask.testBit x = true := by
+          have := congrArg (fun v => v.testBit x) h
+          simp only [Nat.testBit_and, hx, Bool.true_and] at this
+          exact this
+        have hx32 : x < 32 := by
+          cases Nat.lt_or_ge x 32 with
+          | inl h => exact h
+          | inr hge =>
+            have : mask < 2 ^ x := Nat.lt_of_lt_of_le hm (Nat.pow_le_pow_right (by omega) hge)
+            rw [Nat.testBit_lt_two_pow this] at hmx; simp at hmx
+        simp [hx, mem_positions.2 ⟨hx32, hmx⟩]
+      · have : mark.testBit x = false := by simpa using hx
+        simp [this]
+
+example : mapMarkToNumber 0xf0 0x90 = some 9 ∧ mapNumberToMark 0xf0 9 = some 0x90 ∧
+    mapMarkToNumber 0xf0 0x11 = none := by decide
+
+/-! ### 5. `nthMark` (the allocation primitive) on its own -/
 
 /-- Every mark handed out by `nthMark` is a single bit inside the mask. -/
 theorem nthMark_single_bit_in_mask {mask n m : Nat} (h : nthMark mask n = some m) :
@@ -38,13 +281,13 @@ theorem nthMark_single_bit_in_mask {mask n m : Nat} (h : nthMark mask n = some m
   | some p =>
     simp [hp] at h
     have hm : p ∈ positions mask := List.mem_of_getElem? hp
-    have := (mem_positionsBelow).1 hm
+    have := mem_positions.1 hm
     exact ⟨p, this.1, this.2, h.symm⟩
 
-/-- Allocation succeeds exactly while fewer than popcount(mask) bits were handed out. -/
+/-- `nthMark n` succeeds exactly for `n < popcount mask`. -/
 theorem nthMark_isSome_iff (mask n : Nat) :
-    (nthMark mask n).isSome ↔ n < (positions mask).length := by
-  unfold nthMark
+    (nthMark mask n).isSome ↔ n < popcount mask := by
+  unfold nthMark popcount
   simp
 
 example : nthMark 0xf0 1 = some 32 := by decide
